@@ -275,11 +275,10 @@ class TLSRun:
                         got_all[direction].set()
                     if record:
                         self.h.rec("recv", name, len(d))
-            except EndOfStream:
-                end = "EOS"
-            except BrokenResourceError:
-                end = "BROKEN"
-                # a truncation that has been reported must not turn into a clean end on the next call
+            except (EndOfStream, BrokenResourceError) as first:
+                end = "EOS" if isinstance(first, EndOfStream) else "BROKEN"
+                # how the stream ended is a state: asking again must give the same answer (in particular a truncation that
+                # has been reported must neither turn into a clean end nor into a raw ssl error)
                 again = []
                 for _ in range(2):
                     try:
@@ -287,6 +286,8 @@ class TLSRun:
                         again.append("DATA")
                     except EndOfStream:
                         again.append("EOS")
+                    except BrokenResourceError:
+                        again.append("BROKEN")
                     except Cancelled:
                         raise
                     except BaseException as e:
@@ -469,6 +470,10 @@ class TLSRun:
                 elif std and end == "EOS":
                     self.v("truncation_as_eof", f"{d}: the transport was truncated after {cuts.get(d)} ciphertext bytes but the "
                                                 f"{reader_name} saw a clean EndOfStream after {len(got)}/{len(sent)} bytes")
+                elif end in ("EOS", "BROKEN") and any(a not in (end, "ClosedResourceError") for a in res.get(d + "_again", ())) and not (
+                        std and end == "BROKEN" and "EOS" in res.get(d + "_again", ())):
+                    self.v("repeat_report", f"{d}: the truncated transport was first reported as {end}, but the following receive() "
+                                            f"calls ended with {res[d + '_again']}")
                 elif std and end == "BROKEN" and "EOS" in res.get(d + "_again", ()):
                     self.v("truncation_as_eof", f"{d}: the truncation (after {cuts.get(d)} ciphertext bytes) was reported as "
                                                 f"BrokenResourceError, but the following receive() calls ended with "
